@@ -141,6 +141,10 @@ func (st *State) clone() *State {
 			nf.loopMeas[k] = v
 		}
 		nf.defers = append([]deferred(nil), f.defers...)
+		nf.params = make(map[string]Val, len(f.params))
+		for k, v := range f.params {
+			nf.params[k] = v
+		}
 		nf.cellsBy = f.cellsBy // append-only per frame; copy lazily on write
 		nf.cellsBy = map[string][]*Cell{}
 		for k, v := range f.cellsBy {
@@ -287,6 +291,20 @@ func asLe(t *Term) (*Term, *Term, bool) {
 		}
 	}
 	return nil, nil, false
+}
+
+// condPos: source line of a branch condition (for path traces in replay files).
+func (ex *Exec) condPos(fr *Frame, x *ssa.If) string {
+	p := x.Cond.Pos()
+	if !p.IsValid() {
+		for i := len(fr.block.Instrs) - 1; i >= 0 && !p.IsValid(); i-- {
+			p = fr.block.Instrs[i].Pos()
+		}
+	}
+	if !p.IsValid() {
+		return fr.fn.Name()
+	}
+	return posString(ex.prog, p)
 }
 
 func (ex *Exec) tr(format string, a ...interface{}) {
@@ -631,6 +649,10 @@ func (ex *Exec) step(fr *Frame, ins ssa.Instruction) {
 			if ex.dry != nil {
 				ex.dry.alloc = true
 			}
+			if x.Comment != "" && x.Comment != "complit" && x.Comment != "new" {
+				// a named local whose address escapes: contracts refer to it by name
+				fr.params["&"+x.Comment] = p
+			}
 			return
 		}
 		c := ex.cellFor(x)
@@ -738,14 +760,14 @@ func (ex *Exec) step(fr *Frame, ins ssa.Instruction) {
 			saved := ex.st
 			ex.st = other
 			ex.assume(ts.Not(c))
-			ex.tr("b%d: else", fr.block.Index)
+			ex.tr("%s b%d: else", ex.condPos(fr, x), fr.block.Index)
 			ex.jump(other.top(), fb)
 			if !other.done {
 				ex.work = append(ex.work, other)
 			}
 			ex.st = saved
 			ex.assume(c)
-			ex.tr("b%d: then", fr.block.Index)
+			ex.tr("%s b%d: then", ex.condPos(fr, x), fr.block.Index)
 			ex.jump(fr, tb)
 		}
 	case *ssa.Jump:
